@@ -78,24 +78,30 @@ macro_rules! ensure {
 
 #[macro_export]
 macro_rules! ensure_eq {
-    ($a:expr, $b:expr, $sig:expr) => {{
-        let (a, b) = (&$a, &$b);
-        if a != b {
-            return Err($crate::runner::Fail::new(
-                $sig,
-                format!("{} = {:?} but expected {} = {:?}", stringify!($a), a, stringify!($b), b),
-            ));
+    ($a:expr, $b:expr, $sig:expr) => {
+        match (&$a, &$b) {
+            (a, b) => {
+                if a != b {
+                    return Err($crate::runner::Fail::new(
+                        $sig,
+                        format!("{} = {:?} but expected {} = {:?}", stringify!($a), a, stringify!($b), b),
+                    ));
+                }
+            }
         }
-    }};
-    ($a:expr, $b:expr, $sig:expr, $($arg:tt)*) => {{
-        let (a, b) = (&$a, &$b);
-        if a != b {
-            return Err($crate::runner::Fail::new(
-                $sig,
-                format!("{}: {} = {:?} but expected {:?}", format!($($arg)*), stringify!($a), a, b),
-            ));
+    };
+    ($a:expr, $b:expr, $sig:expr, $($arg:tt)*) => {
+        match (&$a, &$b) {
+            (a, b) => {
+                if a != b {
+                    return Err($crate::runner::Fail::new(
+                        $sig,
+                        format!("{}: {} = {:?} but expected {:?}", format!($($arg)*), stringify!($a), a, b),
+                    ));
+                }
+            }
         }
-    }};
+    };
 }
 
 // ---------------------------------------------------------------------------------------------
